@@ -433,4 +433,35 @@ def runParallel (r : Option Bool) (f : Flags) (assign arrival : List Nat) (files
 def runSerial (r : Option Bool) (f : Flags) (files : List (List TRec)) : Except Err TA :=
   addAll (TA.new r f) files.flatten
 
+/-! ## reading sources with a burn-in (`tree_offset`) -/
+
+/-- the reading loop of `TreeArray.read_from_files` and of sumtrees `_read_into_tree_array`: the trees of all sources of ONE
+    call arrive in one stream, each tagged with the number of its source (`tree_yielder.current_file_index`); a running
+    offset (`current_tree_offset`) is reset whenever the source number differs from the remembered one
+    (`current_source_index`, undefined at first); a tree is added once its offset has reached `target` -/
+def readLoop (target : Nat) : List (Nat × TRec) → Option Nat → Nat → List TRec
+  | [], _, _ => []
+  | (i, t) :: r, src, off =>
+    let off0 := if src != some i then 0 else off
+    if off0 ≥ target then t :: readLoop target r (some i) (off0 + 1) else readLoop target r (some i) (off0 + 1)
+
+/-- the stream one call sees: sources in the order given, numbered from `n` -/
+def tagFrom : Nat → List (List TRec) → List (Nat × TRec)
+  | _, [] => []
+  | n, f :: fs => f.map (fun t => (n, t)) ++ tagFrom (n + 1) fs
+
+/-- the trees one call `read_from_files(files, tree_offset=target)` adds, in order -/
+def readFiles (target : Nat) (files : List (List TRec)) : List TRec := readLoop target (tagFrom 0 files) none 0
+
+/-- `serial_analyze_trees` with a burn-in: ONE reading call over all sources -/
+def runSerialB (burnin : Nat) (r : Option Bool) (f : Flags) (files : List (List TRec)) : Except Err TA :=
+  addAll (TA.new r f) (readFiles burnin files)
+
+/-- what a worker makes of a file: its own reading call with the same burn-in (`tree_sources=[tree_source]`) -/
+def workerFiles (burnin : Nat) (files : List (List TRec)) : List (List TRec) := files.map fun f => readFiles burnin [f]
+
+/-- `parallel_analyze_trees` with a burn-in, at the level of arriving results -/
+def runParallelB (burnin : Nat) (r : Option Bool) (f : Flags) (assign arrival : List Nat) (files : List (List TRec)) : Except Err TA :=
+  runParallel r f assign arrival (workerFiles burnin files)
+
 end DendroModel.C06
